@@ -1,3 +1,45 @@
-import Mdsort.Proofs.World
+import Mdsort.Proofs.WorldOwn
+
+/-!
+# C13 - commands get exactly the configured arguments and a clean process environment
+
+`Model.execP` transcribes `exec()` (util.c): open /dev/null unless a descriptor is given, fork,
+waitpid; there is no shell anywhere on the path (the child is `dup2; execvp`, outside the model).
+`runOracle` lets every call return an ARBITRARY result.
+-/
+
 namespace Mdsort.Props
+open Mdsort Mdsort.Model
+
+/-- One argument per configured string, in order, each the one-pass interpolation of that string
+(C12): no word splitting, no joining. -/
+theorem C13_argv (macros : Option (List (Bytes × Bytes))) (ml : MatchList) (i : Nat) (mh mh' : Match)
+    (msgs : Nat → Msg) (upd : Option (Nat × Msg)) (hty : mh.ty = .exec ∨ mh.ty = .command)
+    (h : matchInterpolate macros ml i mh msgs = some (mh', upd)) :
+    mh'.argv.length = mh.strings.length ∧
+    ∀ (k : Nat) (s : Bytes), mh.strings[k]? = some s → ∃ v, interpolate (ml.take i) macros s = some v ∧ mh'.argv[k]? = some (cstr v) :=
+  Proofs.argv_one_per_string macros ml i mh mh' msgs upd hty h
+
+/-- The value of `exec()` is determined by what fork and waitpid report: 0 for a clean exit, the
+exit code for 1..126 and 128.., -1 for 127, 128 + signal for a signalled child, -1 when /dev/null,
+fork or waitpid fail. -/
+theorem C13_status (fdin : Option Handle) (orc : Nat → Call → Res) :
+    ∃ devnullOk forkRes waitRes, (runOracle orc (execP fdin) 0 []).1 = Proofs.execValue devnullOk forkRes waitRes :=
+  Proofs.execP_value fdin orc
+
+/-- A non-zero value of `exec()` is an error of the exec action ... -/
+theorem C13_exec_failure_is_error (env : PEnv) (mh : Match) (st : ExecSt) (orc : Nat → Call → Res)
+    (hty : mh.ty = .exec) (hs : mh.execStdin = false)
+    (hnz : (runOracle orc (execP none) 0 []).1 ≠ 0) :
+    (runOracle orc (execOne env mh st) 0 []).1.2 = true :=
+  Proofs.exec_nonzero_is_error env mh st orc hty hs hnz
+
+/-- ... and an error stops the remaining actions of that message: the run is the same whatever
+follows the failing entry. -/
+theorem C13_error_stops_actions (env : PEnv) (mh : Match) (rest rest' : MatchList) (st : ExecSt) (orc : Nat → Call → Res)
+    (he : (runOracle orc (execOne env mh st) 0 []).1.2 = true) :
+    (runOracle orc (matchesExec env (mh :: rest) st) 0 []).1.2 = true ∧
+    (runOracle orc (matchesExec env (mh :: rest) st) 0 []).2 = (runOracle orc (matchesExec env (mh :: rest') st) 0 []).2 :=
+  Proofs.error_stops_list env mh rest rest' st orc he
+
 end Mdsort.Props
